@@ -15,8 +15,11 @@ func init() {
 			ruleWrapCallsOnce(c)
 			ruleDecodeTargets(c)
 			ruleOmitTagWholeTag(c)
+			ruleUnmarshalParamsErrors(c)
+			ruleArrayTranslateTotal(c)
 			c.Clause("C15-D4")
 			ruleWrapSnapshot(c)
+			ruleStubsKeepStrictness(c)
 			c.Clause("C15-D5/D6")
 			ruleCheckRefusals(c)
 		},
@@ -36,6 +39,8 @@ func init() {
 			ruleExactLength(c)
 			c.Clause("C16-D3")
 			ruleObjDecode(c)
+			ruleObjDecodeOnlyPresence(c)
+			ruleOmitTagConds(c)
 		},
 	})
 }
